@@ -3,6 +3,8 @@
 //   jacrows <dag> <pt> <rows a.b.c> => <J restricted to the rows>
 //   jaccol <dag> <pt> <v> => <column v of J as m x 1>
 //   hansenpt <dag> <x0> <x> => <H>                                        f(x)-f(x0) in H (x-x0)
+//   hansenrows <dag> <x0> <x> <rows> => <H>                               the same for the selected components
+//   jaccolrows <dag> <pt> <v> <rows> => <column v of the Jacobian of the selected components>
 //   diffpt <dag f> <dag df> <pt> => 1                                      exact derivative of f == exact value of df
 //   equivpt <kind> <dag1> <dag2> <pt> => 1                                 same dimensions, same exact value where dag1 is defined
 #include "common.h"
@@ -88,6 +90,44 @@ int main(int argc, char** argv) {
             for (int j = 0; j < 3; j++) { Vector x = point_in(r, box); EMIT("hansenpt %s %s %s => %s\n", b.dag.c_str(), ptok(x0).c_str(), ptok(x).c_str(), H.is_empty() ? "E" : mtok(H).c_str()); }
             IntervalMatrix H2(m, b.nvar); f.hansen_matrix(box, H2); Vector mid = box.mid();
             Vector x = point_in(r, box); EMIT("hansenpt %s %s %s => %s\n", b.dag.c_str(), ptok(mid).c_str(), ptok(x).c_str(), H2.is_empty() ? "E" : mtok(H2).c_str()); }
+          if (smooth && m > 1) { // Hansen matrix of some components only
+            BitSet rows = BitSet::empty(m); string sel; for (int q = 0; q < m; q++) if (r.coin()) { if (!sel.empty()) sel += "."; sel += to_string(q); rows.add(q); }
+            if (!sel.empty()) { Vector x0 = point_in(r, box); IntervalMatrix H(rows.size(), b.nvar); f.hansen_matrix(box, IntervalVector(x0), H, rows);
+              for (int j = 0; j < 2; j++) { Vector x = point_in(r, box); EMIT("hansenrows %s %s %s %s => %s\n", b.dag.c_str(), ptok(x0).c_str(), ptok(x).c_str(), sel.c_str(), H.is_empty() ? "E" : mtok(H).c_str()); } }
+          }
+          if (smooth && b.nvar > 1) { // Hansen matrix w.r.t. some variables, Jacobian w.r.t. the parameters
+            BitSet vb = BitSet::empty(b.nvar); while (vb.size() == 0 || vb.size() == b.nvar) { vb = BitSet::empty(b.nvar); for (int q = 0; q < b.nvar; q++) if (r.coin()) vb.add(q); }
+            VarSet vs(b.nvar, vb);
+            Vector x0f = point_in(r, box);
+            IntervalMatrix Hv(m, vs.nb_var), Jp(m, vs.nb_param);
+            bool with_centre = r.coin(70);
+            Vector x0v = with_centre ? vs.var_box(IntervalVector(x0f)).mid() : vs.var_box(box).mid();
+            if (with_centre) f.hansen_matrix(box, IntervalVector(x0v), Hv, Jp, vs); else f.hansen_matrix(box, Hv, Jp, vs);
+            if (!with_centre) for (int q = 0; q < vs.nb_var; q++) x0f[vs.var(q)] = x0v[q];
+            // the full matrix: columns of the variables from H_var, columns of the parameters from J_param
+            IntervalMatrix M(m, b.nvar); bool empty = Hv.is_empty() || Jp.is_empty();
+            if (!empty) { for (int q = 0; q < vs.nb_var; q++) M.set_col(vs.var(q), Hv.col(q)); for (int q = 0; q < vs.nb_param; q++) M.set_col(vs.param(q), Jp.col(q)); }
+            for (int j = 0; j < 3; j++) { Vector x = point_in(r, box); EMIT("hansenpt %s %s %s => %s\n", b.dag.c_str(), ptok(x0f).c_str(), ptok(x).c_str(), empty ? "E" : mtok(M).c_str()); }
+          }
+          if (m > 1) { // projection on some components (FncProj), with and without the symbolic derivative
+            BitSet comps = BitSet::empty(m); vector<int> cl; for (int q = 0; q < m; q++) if (r.coin(60)) { comps.add(q); cl.push_back(q); }
+            if (!cl.empty()) {
+              Function* df = 0; if (cfg.differentiable && b.rows * b.cols == m && (b.cols == 1) && r.coin()) { try { df = new Function(f, Function::DIFF); } catch (...) { df = 0; } }
+              FncProj pj(f, comps, df);
+              int mp = (int)cl.size();
+              // all the components of the projection
+              { IntervalMatrix Jp2(mp, b.nvar); pj.jacobian(box, Jp2, BitSet::all(mp), -1); string sel; for (int q = 0; q < mp; q++) { if (q) sel += "."; sel += to_string(cl[q]); }
+                Vector p = point_in(r, box); EMIT("jacrows %s %s %s => %s\n", b.dag.c_str(), ptok(p).c_str(), sel.c_str(), Jp2.is_empty() ? "E" : mtok(Jp2).c_str()); }
+              // some of them, one column
+              { BitSet c2 = BitSet::empty(mp); vector<int> sub; for (int q = 0; q < mp; q++) if (r.coin(70)) { c2.add(q); sub.push_back(cl[q]); }
+                if (!sub.empty()) { int v = r.below(b.nvar); IntervalMatrix Jc((int)sub.size(), b.nvar); pj.jacobian(box, Jc, c2, v);
+                  // only column v is specified: check it through the sub-matrix made of this column
+                  IntervalVector col = Jc.col(v); Vector p = point_in(r, box);
+                  string sel; for (size_t q = 0; q < sub.size(); q++) { if (q) sel += "."; sel += to_string(sub[q]); }
+                  EMIT("jaccolrows %s %s %d %s => %s\n", b.dag.c_str(), ptok(p).c_str(), v, sel.c_str(), col.is_empty() ? "E" : mtok(col, false).c_str()); } }
+              if (df) delete df;
+            }
+          }
         }
       } else if (wl == "c12") {
         GenCfg cfg; cfg.differentiable = true; cfg.allow_vec = r.coin(60); cfg.allow_apply = r.coin(40); cfg.max_depth = r.range(1, 4);
